@@ -111,6 +111,7 @@ type Contract struct {
 	ReplayIn []ReplayInput
 	Targets  []string // interface-method contracts: implementers to verify (others stay assumed)
 	ReplayBd []*SExpr            // extra constraints used only to obtain small counterexamples for replay
+	Uses     []string            // lemmas / axioms assumed while verifying this function
 	Dispatch map[string][]string // interface type name -> allowed dynamic types (proved at each invoke)
 }
 
@@ -148,7 +149,21 @@ type FuncDecl struct {
 	Sort   string
 }
 
+type Lemma struct {
+	Pkg   string
+	Name  string
+	E     *SExpr
+	Axiom bool // assumed (listed), not proved
+	Using []string
+	Apply []*SExpr // explicit applications name(args...) of used lemmas/axioms
+	Props []string
+	Src   string
+	File  string
+	Line  int
+}
+
 type SpecDB struct {
+	Lemmas    map[string]*Lemma
 	Immutable map[string]bool // "pkgpath.Type|field": never stored to outside the allocating function
 	Funcs     map[string]*FuncDecl
 	Contracts map[string]*Contract // key: pkg + "::" + name
@@ -160,7 +175,7 @@ type SpecDB struct {
 }
 
 func newSpecDB() *SpecDB {
-	return &SpecDB{Contracts: map[string]*Contract{}, Preds: map[string]*PredDef{}, Funcs: map[string]*FuncDecl{}, Immutable: map[string]bool{}}
+	return &SpecDB{Contracts: map[string]*Contract{}, Preds: map[string]*PredDef{}, Funcs: map[string]*FuncDecl{}, Immutable: map[string]bool{}, Lemmas: map[string]*Lemma{}}
 }
 
 func (db *SpecDB) loadDir(root string, pattern string) error {
@@ -197,6 +212,7 @@ func (db *SpecDB) loadText(path, text, pkgHint string) error {
 	db.Files = append(db.Files, path)
 	pkg := pkgHint
 	var cur *Contract
+	var lastLemma *Lemma
 	lines := strings.Split(text, "\n")
 	// join continuation lines ("//@ +")
 	type L struct {
@@ -233,7 +249,7 @@ func (db *SpecDB) loadText(path, text, pkgHint string) error {
 		case "package":
 			pkg = strings.TrimSpace(rest)
 			cur = nil
-		case "extern", "func", "lemma":
+		case "extern", "func", "proof":
 			c := &Contract{Pkg: pkg, Mode: "math", Loops: map[int]*LoopSpec{}, File: path, Line: l.n}
 			if word == "extern" {
 				c.Extern = true
@@ -244,7 +260,7 @@ func (db *SpecDB) loadText(path, text, pkgHint string) error {
 				rest = r2
 				db.Scan = append(db.Scan, fmt.Sprintf("extern %s %s (%s:%d)", pkg, strings.TrimSpace(rest), filepath.Base(path), l.n))
 			}
-			if word == "lemma" {
+			if word == "proof" {
 				c.Lemma = true
 			}
 			c.Name = strings.TrimSpace(rest)
@@ -285,6 +301,54 @@ func (db *SpecDB) loadText(path, text, pkgHint string) error {
 				return fail(l.n, "pred %s: %v", name, err)
 			}
 			db.Preds[name] = &PredDef{Pkg: pkg, Name: name, Params: params, Body: body, Src: rest}
+			cur = nil
+		case "axiom", "lemma":
+			// axiom name: expr          (assumed, listed)
+			// lemma name [props C..] [using a, b]: expr     (proved from the listed axioms/lemmas)
+			col := strings.Index(rest, ":")
+			if col < 0 {
+				return fail(l.n, "%s name: expr", word)
+			}
+			head := strings.Fields(rest[:col])
+			if len(head) == 0 {
+				return fail(l.n, "%s needs a name", word)
+			}
+			lm := &Lemma{Pkg: pkg, Name: head[0], Axiom: word == "axiom", Src: strings.TrimSpace(rest[col+1:]), File: path, Line: l.n}
+			mode := ""
+			for _, h := range head[1:] {
+				switch h {
+				case "props", "using":
+					mode = h
+				default:
+					h = strings.Trim(h, ",")
+					if mode == "props" {
+						lm.Props = append(lm.Props, h)
+					} else if mode == "using" {
+						lm.Using = append(lm.Using, h)
+					}
+				}
+			}
+			e, err := parseSpecExpr(rest[col+1:])
+			if err != nil {
+				return fail(l.n, "%v", err)
+			}
+			lm.E = e
+			db.Lemmas[lm.Name] = lm
+			lastLemma = lm
+			if lm.Axiom {
+				db.Scan = append(db.Scan, fmt.Sprintf("axiom %s (%s:%d): %s", lm.Name, filepath.Base(path), l.n, lm.Src))
+			}
+			cur = nil
+		case "apply":
+			// apply name(args...)   — instantiate a used lemma/axiom on terms over the last lemma's variables
+			if lastLemma == nil || lastLemma.Axiom {
+				return fail(l.n, "apply needs a preceding lemma")
+			}
+			ae, err := parseSpecExpr(rest)
+			if err != nil || ae.Op != "call" || ae.Args[0].Op != "id" {
+				return fail(l.n, "apply name(args...): %v", err)
+			}
+			lastLemma.Apply = append(lastLemma.Apply, ae)
 			cur = nil
 		case "immutable":
 			for _, f := range strings.Split(rest, ",") {
@@ -464,6 +528,12 @@ func (db *SpecDB) loadText(path, text, pkgHint string) error {
 				pn := strings.TrimSpace(rest[:col])
 				cur.Callback[pn] = append(cur.Callback[pn], Clause{Label: label, E: e, Src: rest})
 				db.Scan = append(db.Scan, fmt.Sprintf("assumed about callback %s of %s::%s: %s", pn, cur.Pkg, cur.Name, strings.TrimSpace(rest[col+1:])))
+			case "uses":
+				for _, u := range strings.Split(rest, ",") {
+					if u = strings.TrimSpace(u); u != "" {
+						cur.Uses = append(cur.Uses, u)
+					}
+				}
 			case "targets":
 				for _, t := range strings.Split(rest, ",") {
 					cur.Targets = append(cur.Targets, strings.TrimSpace(t))
